@@ -442,9 +442,10 @@ def mem2_newton_solver(
         jacobian = mem2_jacobian(
             current_iterate, twiddle_factors, direction_increment, jacobian
         )
-        try:
-            update_iterate = solve_cholesky(jacobian, -current_func)
-        except Exception:
+        update_iterate, positive_definite = solve_cholesky(jacobian, -current_func)
+        if not positive_definite:
+            # Cholesky failed (reported by value: exceptions raised inside this
+            # jitted loop are not reliably caught), fall back to least squares.
             update_iterate = np.linalg.lstsq(jacobian, -current_func, rcond=rcond)[0]
 
         magnitude_current_iterate = np.linalg.norm(current_iterate)
@@ -642,6 +643,10 @@ def solve_cholesky(matrix, rhs):
     """
     Solve using cholesky decomposition according to the Cholesky–Banachiewicz algorithm.
     See: https://en.wikipedia.org/wiki/Cholesky_decomposition#The_Cholesky_algorithm
+
+    :return: (solution, success). Success is False if the matrix is not positive
+        definite (likely due to finite precision errors); the solution is then not
+        usable.
     """
     M, N = matrix.shape
     x = np.zeros(M)
@@ -663,9 +668,7 @@ def solve_cholesky(matrix, rhs):
             sum -= cholesky_decomposition[mm, kk] ** 2
 
         if sum <= 0.0:
-            raise ValueError(
-                "Matrix not positive definite, likely due to finite precision errors."
-            )
+            return x, False
 
         cholesky_decomposition[mm, mm] = np.sqrt(sum)
         inv[mm] = 1 / cholesky_decomposition[mm, mm]
@@ -678,4 +681,4 @@ def solve_cholesky(matrix, rhs):
         for nn in range(kk + 1, N):
             sum += -cholesky_decomposition[nn, kk] * x[nn]
         x[kk] = sum * inv[kk]
-    return x
+    return x, True
